@@ -146,7 +146,7 @@ def build_driver(work, defs, tags="verif", race=False):
     return binp, defs_path
 
 
-EV_OF_OP = {"size": "Size", "encode": "Encode", "encsweep": "Encode", "decode": "Decode", "gc": "Recheck", "deep": "Deep", "reject": "Reject", "legacy": "Legacy", "allocs": "Allocs", "par": "Par", "gated": "Gated", "scale": "Scale", "repeat": "Repeat", "walk": "Walk", "recheck": "Recheck", "clone": "Recheck", "overwrite": "Recheck", "drop": "Recheck"}
+EV_OF_OP = {"size": "Size", "encode": "Encode", "encsweep": "Encode", "decode": "Decode", "gc": "Recheck", "deep": "Deep", "reject": "Reject", "legacy": "Legacy", "allocs": "Allocs", "par": "Par", "gated": "Gated", "scale": "Scale", "cmpout": "CmpOut", "repeat": "Repeat", "walk": "Walk", "recheck": "Recheck", "clone": "Recheck", "overwrite": "Recheck", "drop": "Recheck"}
 
 
 def run_driver(work, binp, defs_path, scenarios, env=None, maxstack=0, step_timeout=None):
